@@ -907,3 +907,53 @@ M2('c11-k3-data-local-exact-lookup-of-default', 'C11', 'R4', _K3_DATA + [
 M2('c11-k3-data-local-bestmatch-on-hit', 'C11', 'R4', _K3_DATA + [
     {'file': HD, 'old': "                handler = self.data[media_type]\n", 'new': "                handler = data[media_type]\n"},
     {'file': HD, 'old': "            if not handler:\n", 'new': "            if handler:\n"}], also=('C12', 'C04', 'C19'))
+
+
+# ---- wave 11: R18 reads the str.find() hop shape of the splitter (seeded change s11-c11-2): a DQUOTE found inside the quoted
+# string closes it exactly when the run of backslashes in front of it is even; the closing decision is evaluated per run length
+_SPLIT_CHARLOOP = """    start = 0
+    quoted = False
+    escaped = False
+    for pos, char in enumerate(header):
+        if escaped:
+            escaped = False
+        elif quoted and char == '\\\\':
+            escaped = True
+        elif char == '"':
+            quoted = not quoted
+        elif char == ',' and not quoted:
+            media_ranges.append(header[start:pos])
+            start = pos + 1
+"""
+
+
+def _hops(closer, skip="            pos = quote + 1\n            continue\n"):
+    return ("    find = header.find\n    start = pos = 0\n    quoted = False\n    while True:\n        quote = find('\"', pos)\n\n"
+            "        if quoted:\n            if quote < 0:\n                break\n" + closer + skip +
+            "\n        comma = find(',', pos)\n        if comma < 0:\n            break\n\n"
+            "        if 0 <= quote < comma:\n            quoted = True\n            pos = quote + 1\n        else:\n"
+            "            media_ranges.append(header[start:comma])\n            start = pos = comma + 1\n\n")
+
+
+_PARITY_OK = ("            text = header[pos:quote]\n            if (len(text) - len(text.rstrip('\\\\'))) % 2 == 0:\n"
+              "                quoted = False\n")
+# the seed: the single character in front of the DQUOTE ("C:\\dir\\" is never closed)
+M('c11-w11-hops-close-by-previous-character', 'C11', 'R18', MT, _SPLIT_CHARLOOP,
+  _hops("            if header[quote - 1] != '\\\\':\n                quoted = False\n"))
+# variants: a wider fixed window; endswith(); the run counted but compared with 0; the parity with the wrong polarity; no test at all
+M('c11-w11-hops-close-by-two-character-window', 'C11', 'R18', MT, _SPLIT_CHARLOOP,
+  _hops("            if header[quote - 1] != '\\\\' or header[quote - 2:quote] == '\\\\\\\\':\n                quoted = False\n"))
+M('c11-w11-hops-close-by-endswith', 'C11', 'R18', MT, _SPLIT_CHARLOOP,
+  _hops("            if not header[:quote].endswith('\\\\'):\n                quoted = False\n"))
+M('c11-w11-hops-close-when-run-is-empty', 'C11', 'R18', MT, _SPLIT_CHARLOOP,
+  _hops("            text = header[pos:quote]\n            if len(text) - len(text.rstrip('\\\\')) == 0:\n                quoted = False\n"))
+M('c11-w11-hops-parity-flipped', 'C11', 'R18', MT, _SPLIT_CHARLOOP,
+  _hops("            text = header[pos:quote]\n            if (len(text) - len(text.rstrip('\\\\'))) % 2:\n                quoted = False\n"))
+M('c11-w11-hops-close-unconditionally', 'C11', 'R18', MT, _SPLIT_CHARLOOP, _hops("            quoted = False\n"))
+# the closing decision is right, but the pass goes on to the comma search while still inside the quoted string
+M('c11-w11-hops-cut-while-inside', 'C11', 'R18', MT, _SPLIT_CHARLOOP, _hops(_PARITY_OK, skip="            pos = quote + 1\n"))
+# negative controls (exit 0, tried with --root): _hops(_PARITY_OK); the run through a local `s = header[:quote]`; `not n & 1`; a backwards
+# counter loop (`k = quote - 1; while k >= pos and header[k] == '\\': n += 1; k -= 1`); `quoted = not quoted` under the parity test;
+# `in_quotes = backslashes % 2 == 1` in an if/else nesting without continue; `while pos <= len(header)`; no find alias; a fast path
+# `if header[quote - 1] != '\\': quoted = False` in front of the parity test (else arm).  exit 2, not 1: a regular expression on
+# header[:quote]; a loop that never closes the quoted string.
